@@ -26,6 +26,7 @@ import (
 	pb "github.com/obolnetwork/charon/dkg/dkgpb/v1"
 	"github.com/obolnetwork/charon/p2p"
 	"github.com/obolnetwork/charon/zzverif/enumx"
+	"github.com/obolnetwork/charon/zzverif/schedx"
 )
 
 type c13host struct {
@@ -534,6 +535,103 @@ func c13replay(t *testing.T, cs c13case) (*c13world, []c13viol) {
 	return w, w.check()
 }
 
+// ---- Part B: concurrent signature requests (schedx) -------------------------------------------------------------------
+
+type c13bdata struct {
+	w    *c13world
+	sigs map[string][]byte // "member/payload" -> signature obtained by the faulty member
+}
+
+func c13scenarioB(n int) *schedx.Scenario {
+	sc := &schedx.Scenario{Name: fmt.Sprintf("concurrent-sig-requests-n%d", n), Params: map[string]any{"n": n}}
+	sc.Setup = func(x *schedx.Exec) {
+		w := c13newWorld(x.TB, n, 0)
+		d := &c13bdata{w: w, sigs: map[string][]byte{}}
+		x.Data = d
+		for m := 1; m < n; m++ {
+			for _, p := range []int64{1, 2} {
+				m, p := m, p
+				x.Go(fmt.Sprintf("req-m%d-p%d", m, p), func(t *schedx.T) {
+					a, _ := anypb.New(c13payload(p))
+					resp, ok, err := w.comps[m].srv.handleSigRequest(x.Ctx, w.peers[0], &pb.BCastSigRequest{Id: c13id, Message: a})
+					if err == nil && ok {
+						d.sigs[fmt.Sprintf("%d/%d", m, p)] = resp.(*pb.BCastSigResponse).GetSignature()
+					}
+					x.Obs("m%d/p%d=%v", m, p, err == nil)
+				})
+			}
+		}
+	}
+	sc.StateKey = func(x *schedx.Exec) string { return x.Data.(*c13bdata).w.key() }
+	sc.Outcome = func(x *schedx.Exec) string {
+		var o []string
+		for k := range x.Data.(*c13bdata).sigs {
+			o = append(o, k)
+		}
+		sort.Strings(o)
+		return strings.Join(o, ",")
+	}
+	sc.Check = func(x *schedx.Exec) []schedx.Violation {
+		d := x.Data.(*c13bdata)
+		w := d.w
+		// the faulty member now tries to complete a broadcast of payload 1 towards the odd members and of payload 2
+		// towards the even members with whatever signatures it obtained
+		for m := 1; m < n; m++ {
+			p := int64(1 + (m+1)%2)
+			var sigs [][]byte
+			okAll := true
+			for sgn := 0; sgn < n; sgn++ {
+				if sgn == 0 {
+					sigs = append(sigs, w.known[c13sigKey{0, 1, c13id, p, 0}])
+					continue
+				}
+				sg, ok := d.sigs[fmt.Sprintf("%d/%d", sgn, p)]
+				okAll = okAll && ok
+				sigs = append(sigs, sg)
+			}
+			if !okAll {
+				continue
+			}
+			a, _ := anypb.New(c13payload(p))
+			_, _, _ = w.comps[m].srv.handleMessage(x.Ctx, w.peers[0], &pb.BCastMessage{Id: c13id, Message: a, Signatures: sigs})
+		}
+		var out []schedx.Violation
+		for _, v := range w.check() {
+			out = append(out, schedx.Violation{Signature: "part=B " + v.sig + " via=concurrent-signature-requests", Description: v.desc})
+		}
+		return out
+	}
+	return sc
+}
+
+func c13partB(t *testing.T, r *enumx.Run) {
+	e := schedx.NewExplorer(t, "C13")
+	e.Deadline = r.Deadline
+	e.Bounds = []int{0, 1, 2}
+	if enumx.Thorough() {
+		e.Bounds = []int{0, 1, 2, 3}
+	}
+	scs := []*schedx.Scenario{c13scenarioB(3)}
+	if enumx.Thorough() {
+		scs = append(scs, c13scenarioB(4))
+	}
+	e.Explore(scs)
+	r.Steps(e.Rep.Transitions)
+	for i := 0; i < e.Rep.Executions; i++ {
+		r.Eval("")
+	}
+	r.States(e.NumStates())
+	r.Count("partB_executions", e.Rep.Executions)
+	r.Count("partB_replay_divergences", e.Rep.ReplayDiverg)
+	for _, v := range e.Rep.Violations {
+		r.Violation(v.Signature, v.Description, map[string]any{"part": "B", "schedx_replay": v.Replay})
+	}
+	if !e.Rep.Exhaustive {
+		r.NotExhaustive("part B: " + strings.Join(e.Rep.Notes, "; "))
+	}
+	r.Note(fmt.Sprintf("part B: executions=%d bound_completed=%v", e.Rep.Executions, e.Rep.BoundCompleted))
+}
+
 func TestVerifC13(t *testing.T) {
 	r := enumx.New(t, "C13")
 	defer r.Finish()
@@ -668,4 +766,5 @@ func TestVerifC13(t *testing.T) {
 			r.Sample(map[string]any{"n": c.n, "faulty": c.faulty, "trace": tr})
 		}
 	}
+	c13partB(t, r)
 }
